@@ -363,11 +363,18 @@ def make_class(rnd, i):
             import collections
 
             dflts = [odd_default(rnd, j) for j in range(nf - ndef, nf)]
-            if rnd.random() < 0.3:
+            k_nt = rnd.random()
+            if k_nt < 0.3:
                 # the way a namedtuple was given defaults before it had a parameter for them (_field_defaults knows nothing of it)
                 cls = collections.namedtuple(f"NT{i}", names)
                 cls.__new__.__defaults__ = tuple(dflts)
                 kind = "namedtuple-defaults-on-__new__"
+            elif k_nt < 0.45:
+                # made with defaults=, then given OTHERS the old way (other values, and for every field: _field_defaults names stale
+                # values, and defaults for fields the constructor no longer has one for)
+                cls = collections.namedtuple(f"NT{i}", names, defaults=[-(j + 40.5) for j in range(nf)])
+                cls.__new__.__defaults__ = tuple(dflts)
+                kind = "namedtuple-defaults-replaced-on-__new__"
             else:
                 cls = collections.namedtuple(f"NT{i}", names, defaults=dflts)
         if rnd.random() < 0.3:
